@@ -24,6 +24,8 @@ import typing as t
 
 def _clone(e: ast.AST) -> t.Any:
     """A private copy of an expression (model nodes carry ``_parent`` links, which ``copy.deepcopy`` would follow upwards)."""
+    if isinstance(e, ast.stmt):
+        return ast.parse(ast.unparse(e)).body[0]
     return ast.parse(ast.unparse(e), mode='eval').body
 
 
@@ -50,9 +52,14 @@ def _and(a: t.Optional[ast.expr], b: t.Optional[ast.expr]) -> t.Optional[ast.exp
     return ast.BoolOp(op=ast.And(), values=[a, b])
 
 
+_FLIP = {ast.Is: ast.IsNot, ast.IsNot: ast.Is, ast.Eq: ast.NotEq, ast.NotEq: ast.Eq, ast.In: ast.NotIn, ast.NotIn: ast.In}
+
+
 def _not(a: ast.expr) -> ast.expr:
     if isinstance(a, ast.UnaryOp) and isinstance(a.op, ast.Not):
         return a.operand
+    if isinstance(a, ast.Compare) and len(a.ops) == 1 and type(a.ops[0]) in _FLIP:
+        return ast.Compare(left=a.left, ops=[_FLIP[type(a.ops[0])]()], comparators=a.comparators)
     return ast.UnaryOp(op=ast.Not(), operand=a)
 
 
@@ -309,4 +316,478 @@ def inline_method_aliases(fn: ast.FunctionDef) -> int:
                 ast.copy_location(y, x.func)
             x.func = new
             n += 1
+    return n
+
+
+# ---------------------------------------------------------------------------- accumulate-loops -> comprehensions
+
+
+def _mentions(node: ast.AST, name: str) -> bool:
+    return any(isinstance(x, ast.Name) and x.id == name for x in ast.walk(node))
+
+
+def _empty_init(st: ast.stmt) -> t.Optional[t.Tuple[str, str]]:
+    """``acc = []`` / ``acc: T = {}`` / ``acc = set()`` / ``dict()`` / ``list()``  ->  (name, kind)."""
+    tg: t.Optional[ast.AST] = None
+    val: t.Optional[ast.AST] = None
+    if isinstance(st, ast.Assign) and len(st.targets) == 1:
+        tg, val = st.targets[0], st.value
+    elif isinstance(st, ast.AnnAssign) and st.value is not None:
+        tg, val = st.target, st.value
+    if not isinstance(tg, ast.Name) or val is None:
+        return None
+    if isinstance(val, ast.List) and not val.elts:
+        return tg.id, 'list'
+    if isinstance(val, ast.Dict) and not val.keys:
+        return tg.id, 'dict'
+    if isinstance(val, ast.Call) and isinstance(val.func, ast.Name) and not val.args and not val.keywords and val.func.id in ('list', 'dict', 'set'):
+        return tg.id, val.func.id
+    return None
+
+
+class _SubstNames(ast.NodeTransformer):
+    def __init__(self, mapping: t.Dict[str, ast.expr]):
+        self.mapping = mapping
+
+    def visit_Name(self, node: ast.Name) -> t.Any:
+        if isinstance(node.ctx, ast.Load) and node.id in self.mapping:
+            return _clone(self.mapping[node.id])
+        return node
+
+
+def _loop_as_comprehension(loop: ast.For, acc: str, kind: str) -> t.Optional[ast.expr]:
+    """The comprehension a ``for`` loop amounts to when its body is guards (``if not c: continue`` / ``if c:`` nesting), single-use
+    temporaries and exactly one final fill of ``acc``."""
+    if loop.orelse or _mentions(loop.iter, acc) or _mentions(loop.target, acc):
+        return None
+    filters: t.List[ast.expr] = []
+    temps: t.Dict[str, ast.expr] = {}
+    body = list(loop.body)
+    while True:
+        if not body:
+            return None
+        st = body[0]
+        if len(body) == 1 and isinstance(st, ast.If) and not st.orelse and not _mentions(st.test, acc):
+            filters.append(t.cast(ast.expr, _SubstNames(temps).visit(_clone(st.test))))
+            body = list(st.body)
+            continue
+        if isinstance(st, ast.If) and not st.orelse and len(st.body) == 1 and isinstance(st.body[0], ast.Continue) and not _mentions(st.test, acc):
+            filters.append(t.cast(ast.expr, _SubstNames(temps).visit(_not(_clone(st.test)))))
+            body = body[1:]
+            continue
+        if len(body) > 1 and isinstance(st, (ast.Assign, ast.AnnAssign)):
+            tg = st.targets[0] if isinstance(st, ast.Assign) and len(st.targets) == 1 else (st.target if isinstance(st, ast.AnnAssign) else None)
+            if isinstance(tg, ast.Name) and st.value is not None and tg.id != acc and not _mentions(st.value, acc) and tg.id not in temps \
+                    and not any(isinstance(x, (ast.NamedExpr, ast.Yield, ast.YieldFrom, ast.Await)) for x in ast.walk(st.value)):
+                temps[tg.id] = t.cast(ast.expr, _SubstNames(temps).visit(_clone(st.value)))
+                body = body[1:]
+                continue
+            return None
+        break
+    if len(body) != 1:
+        return None
+    st = body[0]
+    gens = [ast.comprehension(target=_clone(loop.target), iter=_clone(loop.iter), ifs=filters, is_async=0)]
+    sub = _SubstNames(temps)
+    # temporaries must not be visible after the loop: require they are not the loop target
+    if isinstance(st, ast.Expr) and isinstance(st.value, ast.Call) and isinstance(st.value.func, ast.Attribute) \
+            and isinstance(st.value.func.value, ast.Name) and st.value.func.value.id == acc and len(st.value.args) == 1 and not st.value.keywords:
+        arg = st.value.args[0]
+        if _mentions(arg, acc):
+            return None
+        elt = t.cast(ast.expr, sub.visit(_clone(arg)))
+        if st.value.func.attr == 'append' and kind == 'list':
+            return ast.ListComp(elt=elt, generators=gens)
+        if st.value.func.attr == 'add' and kind == 'set':
+            return ast.SetComp(elt=elt, generators=gens)
+        return None
+    if isinstance(st, ast.Assign) and len(st.targets) == 1 and isinstance(st.targets[0], ast.Subscript) and kind == 'dict' \
+            and isinstance(st.targets[0].value, ast.Name) and st.targets[0].value.id == acc:
+        k, v = st.targets[0].slice, st.value
+        if _mentions(k, acc) or _mentions(v, acc):
+            return None
+        return ast.DictComp(key=t.cast(ast.expr, sub.visit(_clone(k))), value=t.cast(ast.expr, sub.visit(_clone(v))), generators=gens)
+    return None
+
+
+def _flag_init(st: ast.stmt) -> t.Optional[t.Tuple[str, str]]:
+    tg = val = None
+    if isinstance(st, ast.Assign) and len(st.targets) == 1:
+        tg, val = st.targets[0], st.value
+    elif isinstance(st, ast.AnnAssign) and st.value is not None:
+        tg, val = st.target, st.value
+    if isinstance(tg, ast.Name) and isinstance(val, ast.Constant) and isinstance(val.value, bool):
+        return tg.id, 'flagTrue' if val.value else 'flagFalse'
+    return None
+
+
+def _split_loop(loop: ast.For, inits: t.Dict[str, str]) -> t.Optional[t.List[ast.stmt]]:
+    """A loop that fills several accumulators / sets flags, each statement independent of the others' accumulators:
+
+        out = []; changed = False            out = [f(x) for x in xs]
+        for x in xs:                   ->    changed = not all(f(x) is x for x in xs)
+            y = f(x)
+            out.append(y)
+            if y is not x: changed = True
+    """
+    if loop.orelse or any(_mentions(loop.iter, a) or _mentions(loop.target, a) for a in inits):
+        return None
+    temps: t.Dict[str, ast.expr] = {}
+    filters: t.List[ast.expr] = []
+    results: t.Dict[str, ast.expr] = {}
+    seen_fill = False
+
+    def gens() -> t.List[ast.comprehension]:
+        return [ast.comprehension(target=_clone(loop.target), iter=_clone(loop.iter), ifs=[_clone(x) for x in filters], is_async=0)]
+    for st in loop.body:
+        sub = _SubstNames(temps)
+        if isinstance(st, ast.If) and not st.orelse and len(st.body) == 1 and isinstance(st.body[0], ast.Continue) and not seen_fill \
+                and not any(_mentions(st.test, a) for a in inits):
+            filters.append(t.cast(ast.expr, sub.visit(_not(_clone(st.test)))))
+            continue
+        if isinstance(st, (ast.Assign, ast.AnnAssign)):
+            tg = st.targets[0] if isinstance(st, ast.Assign) and len(st.targets) == 1 else (st.target if isinstance(st, ast.AnnAssign) else None)
+            if isinstance(tg, ast.Name) and st.value is not None and tg.id not in inits and tg.id not in temps \
+                    and not any(_mentions(st.value, a) for a in inits) \
+                    and not any(isinstance(x, (ast.NamedExpr, ast.Yield, ast.YieldFrom, ast.Await)) for x in ast.walk(st.value)):
+                temps[tg.id] = t.cast(ast.expr, sub.visit(_clone(st.value)))
+                continue
+            if isinstance(st, ast.Assign) and isinstance(tg, ast.Subscript) and isinstance(tg.value, ast.Name) and inits.get(tg.value.id) == 'dict' \
+                    and tg.value.id not in results and not any(_mentions(x, a) for a in inits for x in (tg.slice, st.value)):
+                results[tg.value.id] = ast.DictComp(key=t.cast(ast.expr, sub.visit(_clone(tg.slice))), value=t.cast(ast.expr, sub.visit(_clone(st.value))),
+                                                    generators=gens())
+                seen_fill = True
+                continue
+            return None
+        if isinstance(st, ast.Expr) and isinstance(st.value, ast.Call) and isinstance(st.value.func, ast.Attribute) \
+                and isinstance(st.value.func.value, ast.Name) and len(st.value.args) == 1 and not st.value.keywords:
+            a_, meth, arg = st.value.func.value.id, st.value.func.attr, st.value.args[0]
+            if a_ in inits and a_ not in results and not any(_mentions(arg, b) for b in inits):
+                elt = t.cast(ast.expr, sub.visit(_clone(arg)))
+                if meth == 'append' and inits[a_] == 'list':
+                    results[a_] = ast.ListComp(elt=elt, generators=gens())
+                    seen_fill = True
+                    continue
+                if meth == 'add' and inits[a_] == 'set':
+                    results[a_] = ast.SetComp(elt=elt, generators=gens())
+                    seen_fill = True
+                    continue
+            return None
+        if isinstance(st, ast.If) and not st.orelse and len(st.body) == 1 and isinstance(st.body[0], ast.Assign) and len(st.body[0].targets) == 1 \
+                and isinstance(st.body[0].targets[0], ast.Name) and isinstance(st.body[0].value, ast.Constant) \
+                and not any(_mentions(st.test, a) for a in inits):
+            fl = st.body[0].targets[0].id
+            kind = inits.get(fl)
+            if kind in ('flagTrue', 'flagFalse') and fl not in results and st.body[0].value.value is (kind == 'flagFalse'):
+                every = ast.Call(func=ast.Name(id='all', ctx=ast.Load()),
+                                 args=[ast.GeneratorExp(elt=t.cast(ast.expr, sub.visit(_not(_clone(st.test)))), generators=gens())], keywords=[])
+                results[fl] = every if kind == 'flagTrue' else ast.UnaryOp(op=ast.Not(), operand=every)
+                seen_fill = True
+                continue
+            return None
+        return None
+    if not results:
+        return None
+    out: t.List[ast.stmt] = []
+    for nm, val in results.items():
+        new = ast.Assign(targets=[ast.Name(id=nm, ctx=ast.Store())], value=val)
+        for y in ast.walk(new):
+            ast.copy_location(y, loop)
+        out.append(new)
+    return out
+
+
+def loops_to_comprehensions(fn: ast.FunctionDef) -> int:
+    """Rewrite, in the analysed copy of the program, the accumulate idiom
+
+        acc = []                       acc = [E for T in ITER if C]
+        for T in ITER:          ->
+            if not C: continue
+            acc.append(E)
+
+    (lists, sets and dicts; guards as ``continue`` or nested ``if``; single-use temporaries inlined).  The loop must be reached from
+    the initialisation through ``if`` arms only (no enclosing loop, ``try`` or ``with``) and nothing in between may mention ``acc``,
+    so ``acc`` is still empty when the loop starts.  The rules that read collection builders (which fields are listed, filtered and
+    how they are labelled) then see one form, whichever way the code is written.  Returns the number of loops rewritten."""
+    count = 0
+
+    def rewrite(stmts: t.List[ast.stmt], start: int, acc: str, kind: str) -> None:
+        """Rewrite the first statement after ``start`` that mentions ``acc`` if it is a suitable loop (descending through if-arms)."""
+        nonlocal count
+        for j in range(start, len(stmts)):
+            s2 = stmts[j]
+            if not _mentions(s2, acc):
+                continue
+            if isinstance(s2, ast.For):
+                comp = _loop_as_comprehension(s2, acc, kind)
+                if comp is not None:
+                    new = ast.Assign(targets=[ast.Name(id=acc, ctx=ast.Store())], value=comp)
+                    for y in ast.walk(new):
+                        ast.copy_location(y, s2)
+                    stmts[j] = new
+                    count += 1
+            elif isinstance(s2, ast.If) and not _mentions(s2.test, acc):
+                rewrite(s2.body, 0, acc, kind)
+                rewrite(s2.orelse, 0, acc, kind)
+            return      # whatever follows may see a filled accumulator
+
+    def multi(block: t.List[ast.stmt]) -> None:
+        """Loops of this block that fill several accumulators / flags initialised earlier in the same block."""
+        nonlocal count
+        j = 0
+        while j < len(block):
+            st = block[j]
+            if isinstance(st, ast.For):
+                inits: t.Dict[str, str] = {}
+                for i in range(j):
+                    ini = _empty_init(block[i]) or _flag_init(block[i])
+                    if ini is not None and _mentions(st, ini[0]) and not any(_mentions(block[k], ini[0]) for k in range(i + 1, j)):
+                        inits[ini[0]] = ini[1]
+                if len(inits) >= 2 or any(k.startswith('flag') for k in inits.values()):
+                    new = _split_loop(st, inits)
+                    # every accumulator the loop touches must have been accounted for
+                    if new is not None and len(new) == len(inits):
+                        block[j:j + 1] = new
+                        count += 1
+                        j += len(new)
+                        continue
+            j += 1
+
+    def scan(block: t.List[ast.stmt]) -> None:
+        multi(block)
+        for i, st in enumerate(block):
+            init = _empty_init(st)
+            if init is not None:
+                rewrite(block, i + 1, init[0], init[1])
+        for st in block:
+            if isinstance(st, (ast.FunctionDef, ast.AsyncFunctionDef, ast.ClassDef)):
+                continue
+            for fld in ('body', 'orelse', 'finalbody'):
+                sub = getattr(st, fld, None)
+                if isinstance(sub, list) and sub and isinstance(sub[0], ast.stmt):
+                    scan(sub)
+            for h in getattr(st, 'handlers', []) or []:
+                scan(h.body)
+    scan(fn.body)
+    return count
+
+
+# ---------------------------------------------------------------------------- early-return predicates -> one Boolean expression
+
+
+def _is_pure_bool(e: ast.AST) -> bool:
+    if isinstance(e, ast.Constant):
+        return isinstance(e.value, bool)
+    if isinstance(e, ast.Compare):
+        return all(_is_pure_operand(x) for x in [e.left, *e.comparators])
+    if isinstance(e, ast.BoolOp):
+        return all(_is_pure_bool(v) for v in e.values)
+    if isinstance(e, ast.UnaryOp) and isinstance(e.op, ast.Not):
+        return _is_pure_bool(e.operand)
+    if isinstance(e, ast.Call) and isinstance(e.func, ast.Name) and e.func.id in ('isinstance', 'issubclass', 'hasattr', 'callable') and not e.keywords:
+        return all(_is_pure_operand(a) for a in e.args)
+    return False
+
+
+def _is_pure_operand(e: ast.AST) -> bool:
+    if isinstance(e, (ast.Name, ast.Constant)):
+        return True
+    if isinstance(e, ast.Attribute):
+        return _is_pure_operand(e.value)
+    if isinstance(e, ast.Tuple):
+        return all(_is_pure_operand(x) for x in e.elts)
+    if isinstance(e, ast.Call) and isinstance(e.func, ast.Name) and e.func.id in ('type', 'len') and len(e.args) == 1 and not e.keywords:
+        return _is_pure_operand(e.args[0])
+    return False
+
+
+def merge_boolean_returns(fn: ast.FunctionDef) -> int:
+    """``if A: return True`` / ``if B: return False`` / ``return C``  ->  ``return A or (not B and C)``.
+
+    Only for predicates whose every test and result is a side-effect-free Boolean expression over names, attributes and constants
+    (``Field.has_default``): the early-return chain and the one-line form are the same function, and the rules that compare
+    conditions see the same atoms either way.  Returns 1 if the body was rewritten."""
+    body = [s for s in fn.body if not (isinstance(s, ast.Expr) and isinstance(s.value, ast.Constant))]
+    if len(body) < 2 or not isinstance(body[-1], ast.Return) or body[-1].value is None or not _is_pure_bool(body[-1].value):
+        return 0
+    steps: t.List[t.Tuple[ast.expr, ast.expr]] = []
+    for st in body[:-1]:
+        if not (isinstance(st, ast.If) and not st.orelse and len(st.body) == 1 and isinstance(st.body[0], ast.Return)
+                and st.body[0].value is not None and _is_pure_bool(st.test) and _is_pure_bool(st.body[0].value)):
+            return 0
+        steps.append((st.test, st.body[0].value))
+    result: ast.expr = _clone(body[-1].value)
+    for (c, e) in reversed(steps):
+        if isinstance(e, ast.Constant) and e.value is True:
+            new: ast.expr = ast.BoolOp(op=ast.Or(), values=[_clone(c), result])
+        elif isinstance(e, ast.Constant) and e.value is False:
+            new = ast.BoolOp(op=ast.And(), values=[_not(_clone(c)), result])
+        else:
+            new = ast.BoolOp(op=ast.Or(), values=[ast.BoolOp(op=ast.And(), values=[_clone(c), _clone(e)]),
+                                                  ast.BoolOp(op=ast.And(), values=[_not(_clone(c)), result])])
+        result = new
+    # flatten nested `or` / `and` of the same kind (a or (b or c))
+    def flat(x: ast.expr) -> ast.expr:
+        if isinstance(x, ast.BoolOp):
+            vals: t.List[ast.expr] = []
+            for v in x.values:
+                v = flat(v)
+                if isinstance(v, ast.BoolOp) and type(v.op) is type(x.op):
+                    vals.extend(v.values)
+                else:
+                    vals.append(v)
+            x.values = vals
+        return x
+    ret = ast.Return(value=flat(result))
+    for y in ast.walk(ret):
+        ast.copy_location(y, body[-1])
+    keep = [s for s in fn.body if isinstance(s, ast.Expr) and isinstance(s.value, ast.Constant)][:1]
+    fn.body = keep + [ret]
+    return 1
+
+
+# ---------------------------------------------------------------------------- nullary import helpers
+
+
+def _import_only(body: t.Sequence[ast.stmt]) -> bool:
+    for st in body:
+        if isinstance(st, (ast.Import, ast.ImportFrom, ast.Pass)):
+            continue
+        if isinstance(st, ast.Try) and _import_only(st.body) and all(_import_only(h.body) for h in st.handlers) \
+                and _import_only(st.orelse) and not st.finalbody:
+            continue
+        return False
+    return True
+
+
+def inline_import_helpers(fn: ast.FunctionDef, lookup: t.Callable[[ast.Call], t.Optional[ast.FunctionDef]]) -> int:
+    """``yaml, Loader = _yaml_loader()`` where the helper takes no argument and consists of (guarded) imports and a final
+    ``return <names>``: replace the statement by the helper's imports (and ``target = name`` where the names differ), so that the
+    caller reads as if it imported the modules itself.  Returns the number of statements replaced."""
+    count = 0
+
+    def scan(block: t.List[ast.stmt]) -> None:
+        nonlocal count
+        i = 0
+        while i < len(block):
+            st = block[i]
+            if isinstance(st, ast.Assign) and len(st.targets) == 1 and isinstance(st.value, ast.Call) and not st.value.args and not st.value.keywords:
+                g = lookup(st.value)
+                if g is not None and not (g.args.args or g.args.posonlyargs or g.args.kwonlyargs or g.args.vararg or g.args.kwarg):
+                    body = [s for s in g.body if not (isinstance(s, ast.Expr) and isinstance(s.value, ast.Constant))]
+                    if body and isinstance(body[-1], ast.Return) and body[-1].value is not None and _import_only(body[:-1]):
+                        rv = body[-1].value
+                        rnames = [rv] if isinstance(rv, ast.Name) else (list(rv.elts) if isinstance(rv, ast.Tuple) else None)
+                        tg = st.targets[0]
+                        tnames = [tg] if isinstance(tg, ast.Name) else (list(tg.elts) if isinstance(tg, (ast.Tuple, ast.List)) else None)
+                        if rnames and tnames and len(rnames) == len(tnames) and all(isinstance(x, ast.Name) for x in rnames + tnames):
+                            new: t.List[ast.stmt] = [_clone(s) for s in body[:-1]]
+                            for a, b in zip(tnames, rnames):
+                                if a.id != b.id:       # type: ignore[union-attr]
+                                    new.append(ast.Assign(targets=[ast.Name(id=a.id, ctx=ast.Store())],     # type: ignore[union-attr]
+                                                          value=ast.Name(id=b.id, ctx=ast.Load())))           # type: ignore[union-attr]
+                            for s2 in new:
+                                for y in ast.walk(s2):
+                                    ast.copy_location(y, st)
+                            block[i:i + 1] = new
+                            count += 1
+                            i += len(new)
+                            continue
+            for fld in ('body', 'orelse', 'finalbody'):
+                sub = getattr(st, fld, None)
+                if isinstance(sub, list) and sub and isinstance(sub[0], ast.stmt) and not isinstance(st, (ast.FunctionDef, ast.AsyncFunctionDef, ast.ClassDef)):
+                    scan(sub)
+            for h in getattr(st, 'handlers', []) or []:
+                scan(h.body)
+            i += 1
+    scan(fn.body)
+    return count
+
+
+# ---------------------------------------------------------------------------- `**opts` of a literal dictionary
+
+
+def spread_kwargs_dicts(fn: ast.FunctionDef) -> int:
+    """``opts = {'indent': indent, 'custom': custom}`` ... ``f(x, **opts)``  ->  ``f(x, indent=indent, custom=custom)``.
+
+    Only when ``opts`` is bound exactly once, to a dictionary display / ``dict(k=v)`` call with constant string keys whose values are
+    names, attributes or constants (so that evaluating them at the call instead changes nothing), is never stored into or passed
+    anywhere except as ``**opts``.  Forwarding rules (which option reaches which callee under which name) then read explicit keywords."""
+    stores: t.Dict[str, t.List[ast.AST]] = {}
+    for st in ast.walk(fn):
+        if isinstance(st, ast.Assign):
+            for tg in st.targets:
+                for nm in ast.walk(tg):
+                    if isinstance(nm, ast.Name) and isinstance(nm.ctx, ast.Store):
+                        stores.setdefault(nm.id, []).append(st)
+        elif isinstance(st, (ast.AnnAssign, ast.AugAssign, ast.NamedExpr)) and isinstance(st.target, ast.Name):
+            stores.setdefault(st.target.id, []).append(st)
+        elif isinstance(st, (ast.For, ast.comprehension)):
+            for nm in ast.walk(st.target):
+                if isinstance(nm, ast.Name):
+                    stores.setdefault(nm.id, []).append(st)
+    params = {a.arg for a in fn.args.args + fn.args.kwonlyargs + fn.args.posonlyargs}
+    cands: t.Dict[str, t.List[t.Tuple[str, ast.expr]]] = {}
+
+    def pure(e: ast.AST) -> bool:
+        if isinstance(e, (ast.Name, ast.Constant)):
+            return True
+        return isinstance(e, ast.Attribute) and pure(e.value)
+    for nm, sts in stores.items():
+        if len(sts) != 1 or nm in params:
+            continue
+        st = sts[0]
+        val = getattr(st, 'value', None)
+        if not isinstance(st, (ast.Assign, ast.AnnAssign)) or val is None:
+            continue
+        if isinstance(st, ast.Assign) and not (len(st.targets) == 1 and isinstance(st.targets[0], ast.Name)):
+            continue
+        items: t.List[t.Tuple[str, ast.expr]] = []
+        if isinstance(val, ast.Dict) and val.keys and all(isinstance(k, ast.Constant) and isinstance(k.value, str) for k in val.keys):
+            items = [(k.value, v) for k, v in zip(val.keys, val.values)]       # type: ignore[union-attr]
+        elif isinstance(val, ast.Call) and isinstance(val.func, ast.Name) and val.func.id == 'dict' and not val.args and val.keywords \
+                and all(k.arg for k in val.keywords):
+            items = [(t.cast(str, k.arg), k.value) for k in val.keywords]
+        if not items or not all(pure(v) for _k, v in items):
+            continue
+        # the values' names must not be rebound anywhere in the function (params / single-store locals)
+        ok = True
+        for _k, v in items:
+            for x in ast.walk(v):
+                if isinstance(x, ast.Name) and x.id not in params and len(stores.get(x.id, [])) > 1:
+                    ok = False
+                if isinstance(x, ast.Name) and x.id in params and stores.get(x.id):
+                    ok = False
+        if ok:
+            cands[nm] = items
+    if not cands:
+        return 0
+    # every load of the name must be a `**name` argument
+    parent: t.Dict[int, ast.AST] = {}
+    for p in ast.walk(fn):
+        for ch in ast.iter_child_nodes(p):
+            parent[id(ch)] = p
+    for x in ast.walk(fn):
+        if isinstance(x, ast.Name) and isinstance(x.ctx, ast.Load) and x.id in cands:
+            par = parent.get(id(x))
+            if not (isinstance(par, ast.keyword) and par.arg is None and par.value is x):
+                cands.pop(x.id, None)
+    n = 0
+    for c in ast.walk(fn):
+        if isinstance(c, ast.Call):
+            new_kw: t.List[ast.keyword] = []
+            changed = False
+            for k in c.keywords:
+                if k.arg is None and isinstance(k.value, ast.Name) and k.value.id in cands:
+                    for (key, v) in cands[k.value.id]:
+                        kw = ast.keyword(arg=key, value=_clone(v))
+                        for y in ast.walk(kw):
+                            ast.copy_location(y, k.value)
+                        new_kw.append(kw)
+                    changed = True
+                    n += 1
+                else:
+                    new_kw.append(k)
+            if changed:
+                c.keywords = new_kw
     return n
